@@ -180,6 +180,10 @@ def run_queue(ctx, replay, pid, mine, dims, opts):
         opts["_allb"] = allb
         if not behs:
             raise vlib.Infra("TLC produced no behaviours")
+    if not replay:
+        for k, b in enumerate(behs):       # harness-only dimension: every fourth message waits for a restart
+            if k % 4 == 3:
+                b["cfg"]["restartFirst"] = True
     if opts.get("post") and not replay:
         opts["post"](ctx, behs)
     ctx.log("%d behaviours to replay" % len(behs))
